@@ -17,11 +17,11 @@ DEMOFILE=$(find . -name 'zz_seed_demo*_test.go' -not -path './_seed/*' | head -1
 PKG=$(dirname $DEMOFILE)
 echo "== demo with patch ($DEMOFILE)" >> $LOG
 go1.26.8 test -vet=off -count=1 -run 'SeedDemo' $PKG > $D/demo_with.log 2>&1; WITH=$?
-CHANGED=$(git diff --name-only | grep -v _test.go)
-git stash -q -- $CHANGED >> $LOG 2>&1
+# (never git stash here: worktrees share one stash stack with the agents still running)
+git apply -R $D/patch.diff >> $LOG 2>&1
 echo "== demo without patch" >> $LOG
 go1.26.8 test -vet=off -count=1 -run 'SeedDemo' $PKG > $D/demo_without.log 2>&1; WITHOUT=$?
-git stash pop -q >> $LOG 2>&1
+git apply $D/patch.diff >> $LOG 2>&1
 tail -5 $D/demo_with.log >> $LOG; tail -3 $D/demo_without.log >> $LOG
 echo "demo_with_patch_exit=$WITH demo_without_patch_exit=$WITHOUT" | tee -a $LOG
 cd /verif
@@ -35,7 +35,7 @@ if ! VERIF_REPO=$SW VERIF_BIN=$BIN ./build.sh >> $LOG 2>&1; then echo "BUILD FAI
 RES=""
 for p in "$@"; do
   cp /verif/evidence/$p.json /tmp/evidence-$p-$ID.bak 2>/dev/null
-  out=$(VERIF_NOBUILD=1 VERIF_BIN=$BIN VERIF_SEED=${VERIF_SEED:-1} VERIF_BUDGET=${VERIF_BUDGET:-25s} ./check $p quick 2>&1)
+  out=$(VERIF_NOBUILD=1 VERIF_BIN=$BIN VERIF_SEED=${VERIF_SEED:-1} VERIF_BUDGET=${VERIF_BUDGET:-40s} ./check $p quick 2>&1)
   echo "== check $p" >> $LOG; echo "$out" | grep -a "VIOLATION\|rule=\|quick\|KNOWN" | cut -c1-400 >> $LOG
   if echo "$out" | grep -q "^VIOLATION property=$p"; then RES="$RES $p:CAUGHT"; echo "$out" | grep -a "rule=" | head -1 | cut -c1-250 | tee -a $LOG
   else RES="$RES $p:missed"; fi
